@@ -14,8 +14,9 @@
    validated by TLC against Trace_Threads (lock discipline, init body once, each OrcOnce
    initialised once and its value seen by every caller, right results) and against
    Trace_CodeMem (the allocator events of all threads form a history CodeMemAbs allows).
-3. thorough tier, auxiliary: the same driver on a ThreadSanitizer build; a report is a
-   Race event, for which the specification has no action.
+3. the same driver on a ThreadSanitizer build (4 runs quick, 12 thorough); a report is a
+   Race event, for which the specification has no action: this is what binds the model's
+   memory-order constants (atomic init flag, release store) to the code.
 """
 import os, json, re
 from ..common import *
@@ -136,8 +137,10 @@ def run(ctx):
     validate(ctx, res, "thr")
     ctx.sample({"threads": runs[0][0], "onces": runs[0][1], "iters": runs[0][2], "seed": runs[0][3]})
     ctx.cov["thread_runs"] = len(runs)
-    if not quick:
-        truns = [((2, 4, 8)[i % 3], 2, 3, ctx.seed * 77 + i) for i in range(12)]
+    # the model's AtomicInitFlag / ReleaseStore constants are bound to the code by ThreadSanitizer:
+    # an unsynchronised access is a Race event, for which the specification has no action
+    if True:
+        truns = [((2, 4, 8)[i % 3], 2, 3, ctx.seed * 77 + i) for i in range(4 if quick else 12)]
         res = drive(ctx, "tsan", truns, "tsan")
         validate(ctx, res, "tsan")
         ctx.cov["tsan_runs"] = len(truns)
@@ -147,7 +150,7 @@ def run(ctx):
     ctx.assumptions += ["the emit sequence number orders events; hook events inside a critical section take it "
                         "while the lock is held",
                         "memory-order weakening is invisible in x86 executions: it is decided by the model "
-                        "(and, thorough tier, by ThreadSanitizer as an auxiliary observer)"]
+                        "and bound to the code by ThreadSanitizer as an observer"]
 
 
 def replay(ctx, path):
